@@ -39,8 +39,8 @@ PROPS['C01'] = dict(
     level_note=NOTE_COMMON,
     technique='runtime monitor: independent long-double reference oracle + ASan/UBSan',
     targets=[T('h_eval.cpp', 'asan'), T('h_eval.cpp', 'prod')],
-    passes=lambda tier, sc: [Pass('asan', 'h_eval.asan', 'C01', n(tier, 160, 2400, sc)),
-                             Pass('prod', 'h_eval.prod', 'C01', n(tier, 160, 2400, sc))],
+    passes=lambda tier, sc: [Pass('asan', 'h_eval.asan', 'C01', n(tier, 480, 2400, sc)),
+                             Pass('prod', 'h_eval.prod', 'C01', n(tier, 480, 2400, sc))],
     level='exploration',
     rule='case = random well-formed table (1-9 dims, orders 0-5, knot strata uniform/irregular/wide-ratio/repeated/clamped, '
          'minimum knot counts forced) x 60-600 points drawn from knot / knot+-ulp / margins / top-of-support / last-knot / interior classes; '
@@ -106,7 +106,7 @@ PROPS['C04'] = dict(
     level_note=NOTE_COMMON,
     technique='runtime monitor: linear-scan oracle + step-cap hook + ASan/UBSan',
     targets=[T('h_eval.cpp', 'asan')],
-    passes=lambda tier, sc: [Pass('asan', 'h_eval.asan', 'C04', n(tier, 640, 8000, sc))],
+    passes=lambda tier, sc: [Pass('asan', 'h_eval.asan', 'C04', n(tier, 2400, 8000, sc))],
     level='exploration',
     rule='case = 1-3-d table with knot vectors from {unit, repeated, 1e-300, 1e300, ratio 1e12, denormal, clamped}; coordinates = every '
          'knot, both neighbours of every knot, +-inf, +-DBL_MAX, +-0, denormals, beyond both ends, random; success/centre/bracketing '
@@ -342,8 +342,8 @@ PROPS['C14'] = dict(
     level_note=NOTE_COMMON + '; bound K=400 on |lib-integral|/(2^-24 M) fixed from the measured error distribution (see errratio counters)',
     technique='runtime monitor: quadrature oracle for the convolution integral + structural invariants, under ASan/UBSan',
     targets=[T('h_misc.cpp', 'asan'), T('h_misc.cpp', 'prod')],
-    passes=lambda tier, sc: [Pass('asan', 'h_misc.asan', 'C14', n(tier, 120, 1500, sc), stall_s=300),
-                             Pass('prod', 'h_misc.prod', 'C14', n(tier, 200, 3000, sc), stall_s=300)],
+    passes=lambda tier, sc: [Pass('asan', 'h_misc.asan', 'C14', n(tier, 360, 1500, sc), stall_s=300),
+                             Pass('prod', 'h_misc.prod', 'C14', n(tier, 900, 3000, sc), stall_s=300)],
     level='exploration',
     rule='case = (table of 1-4 dims, order 0-5 in the convolved dimension, any dimension index, irregular knots, kernel of 2-6 increasing knots, symmetric or not, 0.05x-5x the knot spacing) x 10-60 points; '
          'distinct_nontrivial counts distinct (table, kernel, point) triples with M>0',
@@ -357,7 +357,7 @@ PROPS['C15'] = dict(
     level_note=NOTE_COMMON,
     technique='runtime monitor: exhaustive permutation enumeration (<=5 dims) with exact relocation oracle, under ASan/UBSan',
     targets=[T('h_misc.cpp', 'asan')],
-    passes=lambda tier, sc: [Pass('asan', 'h_misc.asan', 'C15', 153 + n(tier, 60, 600, sc), stall_s=300)],
+    passes=lambda tier, sc: [Pass('asan', 'h_misc.asan', 'C15', 153 + n(tier, 300, 1200, sc), stall_s=300)],
     level='exploration',
     rule='case = one permutation (cases 0..152 enumerate all permutations of 1..5 dimensions, the rest are random 6-d permutations) applied to a fresh table; distinct_nontrivial counts distinct permutations',
     assumptions=ASSUME_COMMON,
@@ -369,7 +369,7 @@ PROPS['C17'] = dict(
     level_note=NOTE_COMMON,
     technique='runtime differential monitor (grid vs pointwise vs reference), under ASan/UBSan',
     targets=[T('h_misc.cpp', 'asan')],
-    passes=lambda tier, sc: [Pass('asan', 'h_misc.asan', 'C17', n(tier, 900, 9000, sc), stall_s=300)],
+    passes=lambda tier, sc: [Pass('asan', 'h_misc.asan', 'C17', n(tier, 3000, 12000, sc), stall_s=300)],
     level='exploration',
     rule='case = (sparse table of 1-4 dims with mixed orders 0-4 and repeated knots, grid) ; every grid point strictly inside the knot range is judged; distinct_nontrivial counts distinct (table, grid point) pairs judged',
     assumptions=ASSUME_COMMON,
@@ -385,7 +385,7 @@ PROPS['C16'] = dict(
     level_note=NOTE_COMMON + '; typed reads are judged against stream extraction / strtod of the stored string',
     technique='runtime monitor: abstract ordered-map model replayed against the real store, under ASan/UBSan/LSan',
     targets=[T('h_aux.cpp', 'asan')],
-    passes=lambda tier, sc: [Pass('asan', 'h_aux.asan', 'C16', n(tier, 500, 10000, sc), env=LEAK_ENV, stall_s=300)],
+    passes=lambda tier, sc: [Pass('asan', 'h_aux.asan', 'C16', n(tier, 1500, 10000, sc), env=LEAK_ENV, stall_s=300)],
     level='exploration',
     rule='case = one history of 5-40 operations on one table; distinct_nontrivial counts distinct histories (hash of the (operation, key) sequence)',
     assumptions=ASSUME_COMMON,
@@ -401,7 +401,7 @@ PROPS['C18'] = dict(
     level_note=NOTE_COMMON + '; unguarded accessors are only called on handles that hold a table (documented precondition)',
     technique='runtime differential monitor (C wrapper vs C++ twin) over random call histories, under ASan/UBSan/LSan',
     targets=[T('h_cinter.cpp', 'asan')],
-    passes=lambda tier, sc: [Pass('asan', 'h_cinter.asan', 'C18', n(tier, 600, 10000, sc), env=LEAK_ENV, stall_s=300)],
+    passes=lambda tier, sc: [Pass('asan', 'h_cinter.asan', 'C18', n(tier, 1200, 10000, sc), env=LEAK_ENV, stall_s=300)],
     level='exploration',
     rule='case = one call sequence; distinct_nontrivial counts distinct sequences (hash of the (call kind, handle) sequence)',
     assumptions=ASSUME_COMMON,
@@ -432,7 +432,7 @@ PROPS['C20'] = dict(
     level_note=NOTE_COMMON + '; move assignment into a populated target is implemented by swap: the source must then hold the target\'s former contents (valid, owned, released once)',
     technique='runtime monitor: checking allocator ledger + abstract state model + allocation-failure enumeration, under ASan/UBSan/LSan',
     targets=[T('h_mem.cpp', 'asan')],
-    passes=lambda tier, sc: [Pass('asan', 'h_mem.asan', 'C20', n(tier, 160, 3000, sc), env=LEAK_ENV, stall_s=600)],
+    passes=lambda tier, sc: [Pass('asan', 'h_mem.asan', 'C20', n(tier, 320, 3000, sc), env=LEAK_ENV, stall_s=600)],
     level='fault_enumeration',
     rule='case = one history, executed once without faults and then once per sampled allocation index with that allocation failing; distinct_nontrivial counts distinct executed (history, fault position) pairs',
     assumptions=ASSUME_COMMON,
